@@ -15,7 +15,7 @@ import (
 
 // (worker-1 / worker-11 and the 10.0.0.x / 110.0.0.x addresses below: node name + address is ambiguous as plain
 // concatenation, "worker-1"+"110.0.0.3" == "worker-11"+"10.0.0.3")
-var c12Names = [8]string{"n1", "n2", "n3", "worker-1", "worker-11", "worker-10", "iris1", "cp-0"}
+var c12Names = [8]string{"n1", "n2", directLongC, "worker-1", "worker-11", "worker-10", directLongA, directLongB}
 
 const (
 	c12Eligible = "eligible"
